@@ -147,7 +147,7 @@ Proof.
            | Some i, Some j =>
                if (i <? 0)%Z || (j <? 0)%Z then Some (inl GInvalidArgument)
                else go t ((Z.to_nat i, Z.to_nat j, v) :: acc) (Nat.max rows (Datatypes.S (Z.to_nat i))) (Nat.max cols (Datatypes.S (Z.to_nat j)))
-           | _, _ => Some (inl GUnknown)
+           | _, _ => Some (inl GInvalidArgument)
            end
        end) l acc rows cols =
     Some (inr (fst (mmerge c (new_csr (Nat.max (Nat.max rows cols) (batch_dim l)) (Nat.max (Nat.max rows cols) (batch_dim l)) (rev acc ++ parsed_coos l) true))))).
